@@ -437,7 +437,7 @@ ENH_SPLICES = [
     ('let final_score = base * quality_mult * cap_mult * gate_mult;', 'proof { qm = quality_mult; }', 'before'),
     ('if Some(i) == last_idx {', '''proof {
             let co = &old(conns)[i as int];
-            assert(enh_candidate(co, current_time_ms, any_unconstrained));
+            assert(enh_candidate(co, current_time_ms, any_unconstrained));  // @ob C04+C11.select.enhanced.result_is_a_connected_candidate
             assert(co.spec_score() >= 0);
             assert(score == spec_enh_score(co, any_unconstrained, enable_quality, qm));  // @ob C11.select.enhanced.score_is_base_x_phase_weight_x_quality_x_soft_cap_x_gate
             lemma_one_is_q_ok();
@@ -446,7 +446,7 @@ ENH_SPLICES = [
             assert(cap_ok(cap_mult));
             assert(gate_mult == 0.02f64 || gate_mult == 1.0f64);
             lemma_score_gt_neg1(co.spec_score() as i32, spec_phase_weight(co.phase), qm, cap_mult, gate_mult);
-            assert(fgt(score, -1.0f64));
+            assert(fgt(score, -1.0f64));  // @ob C03.select.enhanced.returns_a_link_whenever_a_connected_eligible_link_exists
         }''', 'before'),
     ('    best_idx\n}', '''    proof {
         // C11 hysteresis: the previous link is left only if it was skipped or the winner reaches 1.10 x its score
